@@ -172,6 +172,20 @@ def terminates(o):
     return False
 
 
+def negated_cas(cond):
+    """cond is `!<call to compare_exchange_*>`"""
+    c = strip(cond)
+    if isinstance(c, dict) and c.get("kind") == "UnaryOperator" and c.get("opcode") == "!":
+        def has_cas(o):
+            if isinstance(o, dict):
+                if o.get("kind") in ("MemberExpr", "CXXDependentScopeMemberExpr") and (o.get("name") or o.get("member") or "").startswith("compare_exchange"):
+                    return True
+                return any(has_cas(x) for x in o.get("inner", []))
+            return False
+        return has_cas(c)
+    return False
+
+
 def contains_assert_fail(o):
     if isinstance(o, dict):
         if o.get("kind") == "DeclRefExpr" and (o.get("referencedDecl") or {}).get("name") == "__assert_fail":
@@ -324,6 +338,19 @@ class Walker:
             for c in o.get("inner", []):
                 self.stmt(c, ff, ctx)
             return
+        if k == "WhileStmt":
+            inner = o.get("inner", [])
+            if len(inner) >= 2:
+                n_before = len([x for x in ff.sites if not x["inAssert"]])
+                cond, body = inner[-2], inner[-1]
+                for c in inner[:-2]:
+                    self.stmt(c, ff, ctx)
+                self.stmt(cond, ff, ctx)
+                new_sites = ff.sites[len(ff.sites) - (len([x for x in ff.sites if not x["inAssert"]]) - n_before):] if True else []
+                cas_in_cond = any(x["kind"] == "cas" for x in ff.sites[-max(1, len(new_sites)):]) and len([x for x in ff.sites if not x["inAssert"]]) > n_before
+                # `while (!x.compare_exchange(...)) body`: the body runs only after a FAILED exchange, i.e. before publication
+                self.stmt(body, ff, dict(ctx, nops_override=n_before) if cas_in_cond and negated_cas(cond) else ctx)
+                return
         if k == "IfStmt":
             inner = o.get("inner", [])
             has_else = o.get("hasElse", False)
@@ -415,7 +442,8 @@ class Walker:
         b = base_of(o)
         bname = expr_name(b) if b else ""
         ff.seq += 1
-        ff.plain.append({"field": name, "write": write, "afterOp": len([s for s in ff.sites if not s["inAssert"]]),
+        ff.plain.append({"field": name, "write": write,
+                         "afterOp": ctx.get("nops_override", len([s for s in ff.sites if not s["inAssert"]])),
                          "inAssert": ctx["in_assert"], "base": bname, "locked": self.any_lock_held(ctx),
                          "btype": qt(strip(b)) if b else "", "seq": ff.seq, "lambda": ctx["lambda_depth"]})
 
